@@ -39,6 +39,9 @@ import (
 
 var ctx = context.Background()
 
+// goViolate records a violation of the map specification found by the Go-side oracle.
+var goViolate func(desc string, replay any)
+
 // ---------- child nodes (the values) ----------
 
 type valT struct {
@@ -442,10 +445,14 @@ func runHistory(t *testing.T, r *rand.Rand, p *pool, c config, nm *names, nops i
 		return l
 	}
 	pad := padlen(c.width)
+	cut := false // after a change of MaxLinks the model's (constant) configuration no longer applies: Go-side oracle only
 	emit := func(op, ob, lg string) {
+		h.log = append(h.log, lg)
+		if cut {
+			return
+		}
 		h.ops = append(h.ops, op)
 		h.obs = append(h.obs, ob)
-		h.log = append(h.log, lg)
 		h.kinds[strings.SplitN(lg, " ", 2)[0]]++
 	}
 	oracle := func(before, after bool, cls string) bool {
@@ -465,10 +472,38 @@ func runHistory(t *testing.T, r *rand.Rand, p *pool, c config, nm *names, nops i
 		emit(vh.App("OAdd", nameCoq(name), p.valOfNode(vi).coq(), vh.Bool(o)), vh.App("BRes", cls),
 			fmt.Sprintf("add %q %d -> %s", name, vi, cls))
 	}
+	listing := func() string {
+		ls, err := d.Links(ctx)
+		if err != nil {
+			return "ERR " + err.Error()
+		}
+		var out []string
+		for _, l := range ls {
+			out = append(out, fmt.Sprintf("%q=%s", l.Name, l.Cid))
+		}
+		sort.Strings(out)
+		return strings.Join(out, ",")
+	}
 	doRemove := func(name string) {
 		before := isHamt(d)
+		missing := !present[name]
+		var was string
+		if missing {
+			was = listing()
+		}
 		err := d.RemoveChild(ctx, name)
 		cls := errClass(err)
+		// Go-side map oracle (also where the Coq model is cut off): removing a missing name reports
+		// not-exist and changes nothing
+		if missing && goViolate != nil {
+			if !errors.Is(err, os.ErrNotExist) {
+				goViolate(fmt.Sprintf("RemoveChild of the missing name %q answered %s instead of not-exist", name, cls),
+					map[string]any{"config": c.String(), "names": nm.list, "ops": append(append([]string(nil), h.log...), fmt.Sprintf("remove %q", name))})
+			} else if now := listing(); now != was {
+				goViolate(fmt.Sprintf("RemoveChild of the missing name %q changed the listing", name),
+					map[string]any{"config": c.String(), "names": nm.list, "ops": append(append([]string(nil), h.log...), fmt.Sprintf("remove %q", name))})
+			}
+		}
 		if err == nil {
 			delete(present, name)
 		}
@@ -573,6 +608,20 @@ func runHistory(t *testing.T, r *rand.Rand, p *pool, c config, nm *names, nops i
 				doReload()
 			case "dump":
 				doDump()
+			case "setth": // raise the per-directory threshold (the model's size decision is an oracle: no model op)
+				fmt.Sscan(f[1], &c.thresh)
+				d.SetHAMTShardingSize(c.thresh)
+				h.log = append(h.log, "SetHAMTShardingSize "+f[1])
+			case "setglobal":
+				var g int
+				fmt.Sscan(f[1], &g)
+				uio.HAMTShardingSize = g
+				h.log = append(h.log, "HAMTShardingSize="+f[1])
+			case "setml": // the model's MaxLinks is a constant of the case: from here on only the Go-side oracle judges
+				fmt.Sscan(f[1], &c.maxLinks)
+				d.SetMaxLinks(c.maxLinks)
+				h.log = append(h.log, "SetMaxLinks "+f[1])
+				cut = true
 			}
 		}
 		return h
@@ -767,6 +816,8 @@ func TestC15(t *testing.T) {
 	st := vh.NewStats("edit histories (10..60 ops + fixed epilogue) on the real Dynamic/HAMT/Basic directories over pools of 4..24 names " +
 		"(murmur3 prefix-colliding groups, 1-char, 255-byte, UTF-8 and prefix-like names; second stream with synthetic digests up to identical); " +
 		"non-trivial = at least 8 edits and (a conversion happened or the directory is a HAMT with a slot collision); distinct by (config, ops)")
+	goViolate = func(desc string, replay any) { st.Violate(desc, "", replay) }
+	defer func() { goViolate = nil }()
 	cs := vh.NewCases(e, "From V Require Import model.M_C15.\nOpen Scope Z_scope.\nOpen Scope string_scope.", "case", "check_case", 40)
 	r := e.Rng
 	ds := mdtest.Mock()
@@ -830,6 +881,42 @@ func TestC15(t *testing.T) {
 			}
 			script = append(script, "rm n00", "dump")
 			addHist(runHistory(t, r, p, c, nm, 0, script), nm, "corpus")
+		}
+	}
+
+	// ---- directed: a sharded directory that is ALREADY eligible for the downgrade, then RemoveChild of a missing
+	// name: it must answer not-exist and change nothing (seeded change C15-3) ----
+	{
+		nm := &names{digest: map[string][]byte{}}
+		for _, n := range []string{"n00", "n01", "n02", "n03", "xxxxxxxxxx", "yy", "absent", "gone"} {
+			nm.list = append(nm.list, n)
+			nm.digest[n] = hamt.VerifHashOf(n)
+		}
+		tail := []string{"rm absent", "links", "foreach", "find n00", "find absent", "dump", "rm gone", "add n03 5", "rm n03", "rm n03", "dump"}
+		for _, w := range []int{8, 256} {
+			for mode := 0; mode < 3; mode++ {
+				m := uio.SizeEstimationMode(mode)
+				build := []string{"add n00 0", "add n01 3", "add n02 6", "dump"} // three entries: a HAMT under the settings below
+				if mode < 2 {
+					// threshold raised while sharded (per-directory, then global), without and with a reload
+					c := config{width: w, mode: m, thresh: 60, global: 256 * 1024}
+					addHist(runHistory(t, r, p, c, nm, 0, append(append(append([]string{}, build...), "setth 5000"), tail...)), nm, "directed-eligible-th")
+					addHist(runHistory(t, r, p, c, nm, 0, append(append(append([]string{}, build...), "setth 5000", "reload"), tail...)), nm, "directed-eligible-th-reload")
+					addHist(runHistory(t, r, p, c, nm, 0, append(append(append([]string{}, build...), "reload", "setth 5000"), tail...)), nm, "directed-eligible-reload-th")
+					c = config{width: w, mode: m, thresh: 0, global: 60}
+					addHist(runHistory(t, r, p, c, nm, 0, append(append(append([]string{}, build...), "setglobal 5000"), tail...)), nm, "directed-eligible-global")
+				}
+				if mode == 0 {
+					// a small HAMT kept by the sizeChange gate, reloaded (sizeChange restarts at 0): eligible as it is
+					c := config{width: w, mode: m, thresh: 90, global: 256 * 1024}
+					sc := []string{"add n00 0", "add n01 3", "add xxxxxxxxxx 6", "add yy 2", "rm xxxxxxxxxx", "dump", "reload"}
+					addHist(runHistory(t, r, p, c, nm, 0, append(sc, tail...)), nm, "directed-eligible-reload")
+				}
+				// MaxLinks raised while sharded (the Coq case ends at the change; the Go-side map oracle judges the rest)
+				c := config{width: w, maxLinks: 2, mode: m, thresh: 0, global: 256 * 1024}
+				addHist(runHistory(t, r, p, c, nm, 0, append(append(append([]string{}, build...), "setml 10"), tail...)), nm, "directed-eligible-maxlinks")
+				addHist(runHistory(t, r, p, c, nm, 0, append(append(append([]string{}, build...), "setml 10", "reload"), tail...)), nm, "directed-eligible-maxlinks-reload")
+			}
 		}
 	}
 
